@@ -33,6 +33,10 @@ type concCase struct {
 	// starts its program (its first <Syscall> is stretched to DelayMs), and OffsetMs later
 	// the other threads run the rest of theirs -- inside thread 0's stretched operation.
 	Delay *delaySpec `json:"delay,omitempty"`
+	// Dynamic: the callers go through credentials.NewStore (DynamicStore, AllowPlaintextPut) on the
+	// config path instead of a FileStore; operations "I" (IsAuthConfigured) are executed (the race
+	// detector watches them) but not judged -- they are not Get/Put/Delete.
+	Dynamic bool `json:"dynamic,omitempty"`
 }
 
 type delaySpec struct {
@@ -110,8 +114,10 @@ func runConc(cc concCase) { runConcBatch([]concCase{cc}) }
 
 // runConcBatch: the callers run in a CHILD process (a data race inside the
 // library can kill or hang the process: fatal "concurrent map writes", a
-// corrupted map).  Free-running cases share one child; a crash or hang is
-// pinned to a case by re-running the batch's cases one by one.
+// corrupted map).  Free-running cases share one child, built with the race
+// detector when the toolchain allows; a crash, hang or reported data race is
+// re-confirmed and pinned to a case by re-running the batch's cases one by
+// one on fresh directories -- only a re-confirmed failure is reported.
 func runConcBatch(cases []concCase) {
 	var free []concPrep
 	for _, cc := range cases {
@@ -119,12 +125,22 @@ func runConcBatch(cases []concCase) {
 		if cc.Delay != nil {
 			id := run.NewID()
 			results, why := execDelayed(cc, p.path)
+			if results == nil && (why == "crashed" || why == "hang") {
+				// re-confirm on a fresh directory before reporting (a loaded host can exceed the limit)
+				os.RemoveAll(p.base)
+				p = prepConc(cc)
+				var why2 string
+				results, why2 = execDelayed(cc, p.path)
+				if results == nil && why2 != why {
+					why = "unconfirmed-" + why
+				}
+			}
 			switch {
 			case results != nil:
 				run.Count("conc:controlled-" + cc.Delay.Syscall)
 				judgeConc(id, p, results)
 			case why == "crashed" || why == "hang":
-				run.OracleFail(id, "conc-"+why, "the process died or hung under concurrent Get/Put/Delete calls on one store", cc)
+				run.OracleFail(id, "conc-"+why, "the process died or hung under concurrent Get/Put/Delete calls on one store (twice)", cc)
 			default:
 				run.Count("conc:delayed-run-" + why)
 			}
@@ -149,36 +165,59 @@ func runConcBatch(cases []concCase) {
 				run.Count("conc:loaderror")
 				continue
 			}
+			run.Count("conc:free-cases-judged")
+			if raceChild != "" {
+				run.Count("conc:race-detector-cases")
+			}
 			judgeConc(id, p, all[i])
 		}
 		return
 	}
-	if why != "crashed" && why != "hang" {
+	if why != "crashed" && why != "hang" && why != "race" {
 		run.Count("conc:free-run-" + why)
 		return
 	}
-	// pin the failure
-	pinned := false
+	// re-confirm and pin the failure
 	for _, p := range free {
-		for try := 0; try < 3 && !pinned; try++ {
+		for try := 0; try < 3; try++ {
 			q := prepConc(p.cc)
 			_, w := execFree([]concPrep{q})
 			os.RemoveAll(q.base)
-			if w == "crashed" || w == "hang" {
-				run.OracleFail(run.NewID(), "conc-"+w, "the process died or hung under concurrent Get/Put/Delete calls on one store", p.cc)
-				pinned = true
+			if w == "crashed" || w == "hang" || w == "race" {
+				msg := "the process died or hung under concurrent Get/Put/Delete calls on one store"
+				if w == "race" {
+					msg = "the Go race detector reports a data race inside the credentials store under concurrent Get/Put/Delete calls: " + lastRaceReport
+				}
+				run.OracleFail(run.NewID(), "conc-"+w, msg, p.cc)
+				return
 			}
 		}
-		if pinned {
-			break
-		}
 	}
-	if !pinned {
-		run.OracleFail(run.NewID(), "conc-"+why, fmt.Sprintf("the process died or hung while running %d concurrent cases (not reproduced one by one)", len(free)), free[0].cc)
-	}
+	// not reproduced one by one: an infrastructure hiccup (loaded host), not a finding
+	run.Count("conc:unconfirmed-" + why)
 }
 
 func judgeConc(id string, p concPrep, results [][]string) {
+	if p.cc.Dynamic {
+		// not judged: IsAuthConfigured calls
+		cc2 := p.cc
+		cc2.Threads = nil
+		var res2 [][]string
+		for i, ops := range p.cc.Threads {
+			var o2 []opx
+			var r2 []string
+			for j, o := range ops {
+				if o.Op != "I" {
+					o2 = append(o2, o)
+					r2 = append(r2, results[i][j])
+				}
+			}
+			cc2.Threads = append(cc2.Threads, o2)
+			res2 = append(res2, r2)
+		}
+		p.cc, results = cc2, res2
+		run.Count("conc:dynamic-store")
+	}
 	cc, base, path, initDoc := p.cc, p.base, p.path, p.initDoc
 	ctx := context.Background()
 	fail := func(sig, msg string) { run.OracleFail(id, sig, msg, cc) }
@@ -358,9 +397,16 @@ func judgeConc(id string, p concPrep, results [][]string) {
 	}
 }
 
-func doOp(fs *credentials.FileStore, o opx) string {
+type authConfigured interface{ IsAuthConfigured() bool }
+
+func doOp(fs credentials.Store, o opx) string {
 	ctx := context.Background()
 	switch o.Op {
+	case "I":
+		if ac, ok := fs.(authConfigured); ok {
+			ac.IsAuthConfigured()
+		}
+		return "i"
 	case "G":
 		c, err := fs.Get(ctx, o.Addr)
 		if err != nil {
@@ -376,7 +422,7 @@ func doOp(fs *credentials.FileStore, o opx) string {
 }
 
 // runFree: free-running goroutines on one store (executed in the child).
-func runFree(fs *credentials.FileStore, threads [][]opx) [][]string {
+func runFree(fs credentials.Store, threads [][]opx) [][]string {
 	results := make([][]string, len(threads))
 	var wg sync.WaitGroup
 	start := make(chan struct{})
